@@ -515,8 +515,11 @@ func shape(q request) string {
 	return s
 }
 
-func runConformance(r *ev.Run) {
+func runConformance(r *ev.Run, shard, nshards int) {
 	gs, qs := greetings(), requests()
+	// the cases are dealt round-robin to the shards (one worker process each)
+	k := 0
+	mine := func() bool { k++; return nshards <= 1 || (k-1)%nshards == shard }
 	answers := []struct {
 		ok   bool
 		code uint32
@@ -532,6 +535,9 @@ func runConformance(r *ev.Run) {
 				}
 				for _, an := range as {
 					an := an
+					if !mine() {
+						continue
+					}
 					res := runClient([][][]byte{{g.bytes()}, {q.bytes()}}, false, func(id uint32) *demonwire.Sub { s := cbConnect(id, an.ok, an.code); return &s }, nil, nil, "")
 					n++
 					detail := map[string]any{"greeting": hexs(g.bytes()), "request": q.String(), "delivery": "reactive, one segment per flight", "agent_answer": fmt.Sprintf("ok=%v code=%d", an.ok, an.code)}
@@ -556,6 +562,9 @@ func runConformance(r *ev.Run) {
 				if len(gc) > 1 && len(qc) > 1 && !r.Thorough() {
 					continue // quick: chunk one flight at a time
 				}
+				if !mine() {
+					continue
+				}
 				res := runClient([][][]byte{gc, qc}, false, func(id uint32) *demonwire.Sub { s := cbConnect(id, true, 0); return &s }, nil, nil, "")
 				n++
 				detail := map[string]any{"greeting_chunks": lens(gc), "request": q.String(), "request_chunks": lens(qc)}
@@ -571,6 +580,9 @@ func runConformance(r *ev.Run) {
 			continue
 		}
 		all := append(append([]byte{}, g.bytes()...), q.bytes()...)
+		if !mine() {
+			continue
+		}
 		res := runClient([][][]byte{{all}}, false, func(id uint32) *demonwire.Sub { s := cbConnect(id, true, 0); return &s }, nil, nil, "")
 		n++
 		detail := map[string]any{"request": q.String(), "delivery": "greeting and request pipelined in one segment"}
@@ -591,6 +603,9 @@ func runConformance(r *ev.Run) {
 			}
 			if cut == 0 {
 				fl = nil
+			}
+			if !mine() {
+				continue
 			}
 			res := runClient(fl, true, nil, nil, nil, "")
 			n++
@@ -613,7 +628,7 @@ func runConformance(r *ev.Run) {
 		}
 	}
 	r.Eval(n)
-	r.Extra["conformance_executions"] = n
+	r.Extra["conformance_executions"+shardTag(shard, nshards)] = n
 }
 
 func lens(c [][]byte) []int {
@@ -943,7 +958,17 @@ func Run(r *ev.Run) {
 		ts = 4
 	}
 	type item func(r *ev.Run)
-	items := []item{func(r *ev.Run) { runConformance(r) }, func(r *ev.Run) { runIntegrity(r); runPortFwdTable(r) }}
+	// the conformance product runs one case after the other (about half an hour in the
+	// thorough tier in one process): four shards there
+	cs := 1
+	if r.Thorough() {
+		cs = 4
+	}
+	items := []item{func(r *ev.Run) { runIntegrity(r); runPortFwdTable(r) }}
+	for k := 0; k < cs; k++ {
+		k := k
+		items = append(items, func(r *ev.Run) { runConformance(r, k, cs) })
+	}
 	for sc := 0; sc < 3; sc++ {
 		for k := 0; k < ts; k++ {
 			sc, k := sc, k
@@ -979,7 +1004,7 @@ func Run(r *ev.Run) {
 	r.Bounds["work_items"] = len(items)
 	par.Run(r, len(items), 30*time.Minute, func(i, n int, r *ev.Run) {
 		if n == 1 {
-			runConformance(r)
+			runConformance(r, 0, 1)
 			runIntegrity(r)
 			runPortFwdTable(r)
 			runTables(r, -1, 0, 1)
